@@ -111,6 +111,10 @@ ExprProds ==
             <<"v", G, "(", G, H("I", 1), G, ",", H("I", 1), G, ",", H("I", 1), G, ")">>),
         Prd("call", "I", 7, 1, CallV(Id("v"), <<H("I", 1), H("L", 1)>>),
             <<"v", G, "(", G, H("I", 1), G, ",", H("L", 1), G, "...", G, ")">>),
+        \* a call whose first argument contains statements (the XGo scanner resets its paren count at every `;`) and that spreads its last
+        Prd("call", "I", 7, 1,
+            CallV(Id("v"), CallX(FuncLitX(FT(FL(<<>>), FL(Fld(<<>>, IntT))), Blk(Asg("=", Id("a"), Lit("INT", "1")) \o Ret(Id("a")))), <<>>) \o <<H("L", 1)>>),
+            <<"v", G, "(", G, "func", G, "(", G, ")", "int", "{", NL, "a", "=", "1", NL, "return", "a", NL, "}", G, "(", G, ")", G, ",", H("L", 1), G, "...", G, ")">>),
         Prd("call", "I", 7, 1, CallX(Id("len"), <<H("L", 1)>>), <<"len", G, "(", G, H("L", 1), G, ")">>),
         Prd("call", "L", 7, 1, CallX(Id("append"), <<H("L", 1), H("I", 1)>>),
             <<"append", G, "(", G, H("L", 1), G, ",", H("I", 1), G, ")">>),
@@ -267,6 +271,8 @@ StmtProdsFor(X) ==
         S1("for", X, ForS(NIL, <<H("B", 1)>>, NIL, BodySx("f")), <<"for", ";", H("B", 1), G, ";">> \o BodyTk("f")),
         S1("for", X, ForS(Asg(":=", Id("#z"), Lit("INT", "0")), NIL, IncDec("++", Id("#z")), BodySx("f")),
            <<"for", "#z", ":=", "0", G, ";", ";", "#z", G, "++">> \o BodyTk("f")),
+        S1("for", X, ForS(<<"(SendStmt", H("C", 1), H("I", 1), ")">>, <<H("B", 1)>>, NIL, BodySx("f")),
+           <<"for", H("C", 1), "<-", H("I", 1), G, ";", H("B", 1), G, ";">> \o BodyTk("f")),
         S1("range", X, RangeS(NIL, NIL, "ILLEGAL", <<H("L", 1)>>, BodySx("f")), <<"for", "range", H("L", 1)>> \o BodyTk("f")),
         S1("range", X, RangeS(Id("#z"), NIL, ":=", <<H("L", 1)>>, Blk(UseSx("#z") \o <<H("SLf", 0)>>)),
            <<"for", "#z", ":=", "range", H("L", 1), "{", NL>> \o UseTk("#z") \o <<NL, H("SLf", 0), NL, "}">>),
@@ -494,6 +500,8 @@ DeclProds ==
            <<"type", "#Ty", G, "[", G, "K", "comparable", G, ",", "V", "any", G, "]", "map", G, "[", G, "K", G, "]", G, "V">>),
         D1("generic", GenD("type", <<>>, TSpecG("#Ty", NIL, <<>>, <<"(InterfaceType">> \o FL(Fld(<<>>, Bin("|", Tilde("int"), Tilde("string"))) \o Fld(Id("M"), FT(FL(<<>>), NIL))) \o <<")">>)),
            <<"type", "#Ty", "interface", "{", NL, "~", G, "int", "|", "~", G, "string", NL, "M", G, "(", G, ")", NL, "}">>),
+        D1("generic", GenD("type", <<>>, TSpecG("#Ty", FL(Fld(Id("K") \o Id("V"), Id("any"))), <<>>, <<"(StructType">> \o FL(Fld(Id("k"), Id("K")) \o Fld(Id("v"), Id("V"))) \o <<")">>)),
+           <<"type", "#Ty", G, "[", G, "K", G, ",", "V", "any", G, "]", "struct", "{", NL, "k", "K", NL, "v", "V", NL, "}">>),
         D1("generic", GenD("type", <<>>, TSpecG("#Ty", NIL, <<>>, <<"(InterfaceType">> \o FL(Fld(<<>>, Bin("|", IntT, Id("string")))) \o <<")">>)),
            <<"type", "#Ty", "interface", "{", NL, "int", "|", "string", NL, "}">>),
         D1("generic", GenD("type", <<>>, TSpecG("#Ty", NIL, <<>>, <<"(InterfaceType">> \o FL(Fld(<<>>, Slc(IntT)) \o Fld(<<>>, Id("comparable"))) \o <<")">>)),
